@@ -363,6 +363,7 @@ class World:
         self.seams = Seams(self.k, self.net, c["seed"], mtu=c["mtu"], reactor_lag_max=c["reactor_lag"])
         self.monitors = list(monitors)
         self.custom_ops = {}
+        self.after_build = []      # fn(world) called once server and client nodes exist, before the run starts
         self.violations = []
         self.probes = collections.Counter()
         self.end_time = c["duration"]
@@ -519,7 +520,9 @@ class World:
             self.tserver.stop()
         else:
             self.ctxt.shutdown()
-            self.server_thread._wake()
+            th = self.server_thread or getattr(self.userver, "thread", None)
+            if th is not None:
+                th._wake()
 
     # ------------------------------------------------------------------ probes on the connection classes
     def _install_probes(self):
@@ -695,12 +698,16 @@ class World:
                         self.clients[int(who[1:])].ops.append(op)
                 for cn in self.clients:
                     cn.start()
+                for fn in self.after_build:
+                    fn(self)
                 try:
                     k.run(until=self.end_time)
                     for m in self.monitors:
                         m.at_end()
                 finally:
                     self.stopped = True
+                    lt = self.loop_thread()
+                    self.loop_done = bool(lt is not None and lt.done)     # before the teardown aborts it
                     for t in k.threads:
                         if t.exc is not None:
                             self.thread_exits.append((t.name, type(t.exc).__name__, str(t.exc)[:200]))
